@@ -319,31 +319,47 @@ type entry struct {
 	bucket bool
 }
 
-func walkForward(b database.Bucket) []entry {
-	var out []entry
-	c := b.Cursor()
-	for ok := c.First(); ok; ok = c.Next() {
-		k, v := c.Key(), c.Value()
-		if internalName(k) {
-			continue
-		}
-		out = append(out, entry{k, v, v == nil})
-	}
-	return out
+// Every walk over the real database is bounded: a bucket of the replayed
+// universe holds at most its keys, its nested buckets and ffldb's two internal
+// entries, so a walk that takes more steps than that does not terminate (or
+// revisits entries) and is cut off; runaway reports it.
+func (w *world) walkLimit() int {
+	return len(w.cc.c.keys) + len(w.cc.c.names) + 8
 }
 
-func walkBackward(b database.Bucket) []entry {
-	var out []entry
+func (w *world) walkForward(b database.Bucket) (out []entry, runaway bool) {
 	c := b.Cursor()
-	for ok := c.Last(); ok; ok = c.Prev() {
+	steps := 0
+	for ok := c.First(); ok; ok = c.Next() {
+		if steps++; steps > w.walkLimit() {
+			return out, true
+		}
 		k, v := c.Key(), c.Value()
 		if internalName(k) {
 			continue
 		}
 		out = append(out, entry{k, v, v == nil})
 	}
-	return out
+	return out, false
 }
+
+func (w *world) walkBackward(b database.Bucket) (out []entry, runaway bool) {
+	c := b.Cursor()
+	steps := 0
+	for ok := c.Last(); ok; ok = c.Prev() {
+		if steps++; steps > w.walkLimit() {
+			return out, true
+		}
+		k, v := c.Key(), c.Value()
+		if internalName(k) {
+			continue
+		}
+		out = append(out, entry{k, v, v == nil})
+	}
+	return out, false
+}
+
+var errRunaway = errors.New("verif: walk cut off")
 
 func sameEntries(a, b []entry) bool {
 	if len(a) != len(b) {
@@ -361,7 +377,10 @@ func sameEntries(a, b []entry) bool {
 // inconsistency between the APIs is returned as a divergence.
 func (w *world) dumpBucket(b database.Bucket, path []string, out map[string]bucketDump, divs *[]divergence) {
 	pname := "/" + strings.Join(path, "/")
-	fw := walkForward(b)
+	fw, runaway := w.walkForward(b)
+	if runaway {
+		*divs = append(*divs, divergence{"cursor:walk-does-not-terminate", fmt.Sprintf("bucket %s: a First/Next walk yields more than %d entries (the bucket can hold at most %d)", pname, w.walkLimit(), w.walkLimit()-6)})
+	}
 	var d bucketDump
 	for _, e := range fw {
 		if e.bucket {
@@ -373,7 +392,10 @@ func (w *world) dumpBucket(b database.Bucket, path []string, out map[string]buck
 	out[pname] = d
 
 	// backward walk is the mirror image
-	bw := walkBackward(b)
+	bw, runaway := w.walkBackward(b)
+	if runaway {
+		*divs = append(*divs, divergence{"cursor:walk-does-not-terminate", fmt.Sprintf("bucket %s: a Last/Prev walk yields more than %d entries (the bucket can hold at most %d)", pname, w.walkLimit(), w.walkLimit()-6)})
+	}
 	for i, j := 0, len(bw)-1; i < j; i, j = i+1, j-1 {
 		bw[i], bw[j] = bw[j], bw[i]
 	}
@@ -383,18 +405,30 @@ func (w *world) dumpBucket(b database.Bucket, path []string, out map[string]buck
 	}
 	// ForEach / ForEachBucket
 	var fe, feb []entry
-	_ = b.ForEach(func(k, v []byte) error {
+	feSteps := 0
+	if err := b.ForEach(func(k, v []byte) error {
+		if feSteps++; feSteps > w.walkLimit() {
+			return errRunaway
+		}
 		if !internalName(k) {
 			fe = append(fe, entry{append([]byte{}, k...), append([]byte{}, v...), false})
 		}
 		return nil
-	})
-	_ = b.ForEachBucket(func(k []byte) error {
+	}); err == errRunaway {
+		*divs = append(*divs, divergence{"cursor:walk-does-not-terminate", fmt.Sprintf("bucket %s: ForEach yields more than %d entries", pname, w.walkLimit())})
+	}
+	feSteps = 0
+	if err := b.ForEachBucket(func(k []byte) error {
+		if feSteps++; feSteps > w.walkLimit() {
+			return errRunaway
+		}
 		if !internalName(k) {
 			feb = append(feb, entry{append([]byte{}, k...), nil, true})
 		}
 		return nil
-	})
+	}); err == errRunaway {
+		*divs = append(*divs, divergence{"cursor:walk-does-not-terminate", fmt.Sprintf("bucket %s: ForEachBucket yields more than %d entries", pname, w.walkLimit())})
+	}
 	var fwKeys, fwSubs []entry
 	for _, e := range fw {
 		if e.bucket {
